@@ -108,7 +108,8 @@ def run(ctx):
     if res.violated:
         raise common.MachineryError("Middleware.tla: " + tlc.describe(res))
     tlc.check_coverage(res, ["CallInner", "Wrap"])
-    tlc.write_mc(wd, "MC_MiddlewareOrig", "Middleware", constants=dict(K, FoldAll=True), cfg_lines=cfg)
+    tlc.write_mc(wd, "MC_MiddlewareOrig", "Middleware", constants=dict(K, FoldAll=True),
+                 cfg_lines=["SPECIFICATION Spec", "CHECK_DEADLOCK FALSE", "INVARIANT Transparent"])
     wres = tlc.run_tlc(wd, "MC_MiddlewareOrig", coverage=False)
     if wres.violated != "Transparent":
         raise common.MachineryError("witness failed: FoldAll=TRUE does not violate Transparent (%s)" % wres.violated)
